@@ -64,7 +64,7 @@ def equivalent(utype, a, b):
 
 
 ACCESSORS = ["ham_new", "ham_assign", "faxis", "mol_new", "mol_set_energy", "mol_width", "mode_new", "mode_set_energy",
-             "agg_coupling", "agg_coupling_matrix", "cf_reorg", "sd_reorg", "length"]
+             "agg_coupling", "agg_coupling_matrix", "cf_reorg", "sd_reorg", "length", "ham_rwa"]
 LIBCALLS = ["agg_build", "agg_build_env", "agg_build_raises", "agg_rebuild", "get_Hamiltonian", "relaxation_tensor", "rate_matrix",
             "set_rwa", "time_to_frequency_axis", "frequency_to_time_axis", "thermal_state", "molecule_hamiltonian",
             "cf_add", "sd_from_cf", "ft_cf", "abs_calculate", "propagate", "diagonalize", "convert"]
@@ -81,7 +81,8 @@ class World:
     required_probes = ["nested_depth_3", "nm_reciprocal", "set_in_one_read_in_other", "libcall_inside_context",
                        "libcall_raises_inside_context", "fault_unwinds_2_levels", "post_fault_ops_executed",
                        "length_context", "frequency_context", "global_set_inside_context", "enforce_probe_inside",
-                       "enforce_probe_outside", "mixed_energy_length_nesting"]
+                       "enforce_probe_outside", "mixed_energy_length_nesting", "context_object_reused",
+                       "context_object_reused_under_same_units", "failing_convert"]
     required_faults = ["F1_simfault", "F2_library_call_raises", "F3_unknown_unit"]
     components = {
         "real": ["Manager unit state and conversions", "energy_units / frequency_units / length_units", "set_current_units",
@@ -110,10 +111,10 @@ class World:
     def gen(self, rng, tier):
         n = rng.randint(3, 30)
         kinds = ["enter", "enter", "enter", "exit", "exit", "set", "set", "get", "get", "get", "convert", "libcall", "libcall",
-                 "fault", "badunit", "setglobal"]
+                 "fault", "badunit", "setglobal", "badconvert"]
         faultfree = rng.random() < 0.3
         if faultfree:
-            kinds = [k for k in kinds if k not in ("fault", "badunit")]
+            kinds = [k for k in kinds if k not in ("fault", "badunit", "badconvert")]
         if rng.random() < 0.4:
             drop = rng.sample(["convert", "libcall", "setglobal", "badunit"], rng.randint(1, 2))
             kinds = [k for k in kinds if k not in drop]
@@ -129,7 +130,8 @@ class World:
         for _ in range(n):
             k = rng.choice(kinds)
             if k == "enter":
-                ops.append({"op": "enter", "t": rng.choice(["e", "e", "e", "f", "l"]), "u": rng.randrange(16)})
+                ops.append({"op": "enter", "t": rng.choice(["e", "e", "e", "f", "l"]), "u": rng.randrange(16) if rng.random() < 0.7 else rng.randrange(3),
+                            "reuse": rng.random() < 0.4})
             elif k == "exit":
                 ops.append({"op": "exit"})
             elif k == "fault":
@@ -142,6 +144,8 @@ class World:
                 ops.append({"op": "get", "a": rng.choice(accs)})
             elif k == "convert":
                 ops.append({"op": "convert", "e": round(10 ** rng.uniform(-2.3, 0.3), 6), "a": rng.randrange(16), "b": rng.randrange(16)})
+            elif k == "badconvert":
+                ops.append({"op": "badconvert", "how": rng.randrange(4), "a": rng.randrange(16)})
             elif k == "libcall":
                 ops.append({"op": "libcall", "l": rng.choice(libs)})
             elif k == "setglobal":
@@ -206,6 +210,8 @@ class Runner:
             raise HarnessError("run does not start in internal units: %r" % (self.cur,))
         self.freq0 = self.m.get_current_units("frequency")
         self.stack = []          # (utype, backup)
+        self.cm_pool = {}        # (constructor name, unit) -> context manager object (re-used sequentially, never re-entered)
+        self.cm_active = set()
         self.objs = {}
         self.inside_ops = 0
         self.entered = 0
@@ -325,8 +331,24 @@ class Runner:
         fault = None
         nxt = None
         pre = dict(self.cur)
+        key = (cm.__name__, u)
+        if op.get("reuse") and key in self.cm_pool and key not in self.cm_active:
+            cmo = self.cm_pool[key]
+            self.ctx.probe("context_object_reused")
+            if equivalent(utype, self.cur[utype], u):
+                self.ctx.probe("context_object_reused_under_same_units")
+        else:
+            try:
+                cmo = cm(u)
+            except Exception as e:
+                raise Violation("context-enter-raises", "%s(%r): %s: %s" % (cm.__name__, u, type(e).__name__, e))
+            if key not in self.cm_active:
+                self.cm_pool[key] = cmo
+        pooled = self.cm_pool.get(key) is cmo
+        if pooled:
+            self.cm_active.add(key)
         try:
-            with cm(u):
+            with cmo:
                 entered = True
                 self.stack.append((utype, self.cur[utype]))
                 self.cur[utype] = u
@@ -344,6 +366,8 @@ class Runner:
         except Exception as e:
             raise Violation("context-exit-raises" if entered else "context-enter-raises",
                             "%s_units(%r) entered at op %d: %s: %s" % (utype, u, i, type(e).__name__, e))
+        if pooled:
+            self.cm_active.discard(key)
         if not entered:
             raise HarnessError("units context not entered")
         t, backup = self.stack.pop()
@@ -396,6 +420,28 @@ class Runner:
         if self.depth >= 1:
             self.ctx.probe("global_set_inside_context")
         self.ctx.cov("setglobal", op["t"], self.depth)
+
+    def op_badconvert(self, i, op):
+        """A conversion that fails (and is caught by the caller) must leave the active units alone."""
+        qr = self.qr
+        a = self.EU[op["a"] % len(self.EU)]
+        how = op["how"] % 4
+        self.ctx.fault("F2_library_call_raises")
+        try:
+            if how == 0:
+                qr.convert(0.0, "nm", to=a)
+            elif how == 1:
+                qr.convert([1.0, 2.0], a, to="1/cm")
+            elif how == 2:
+                qr.convert(1.0, a, to="no-such-unit")
+            else:
+                qr.convert(1.0, "no-such-unit", to=a)
+            raised = False
+        except Exception:
+            raised = True
+        self.ctx.probe("failing_convert") if raised else None
+        self.ctx.ev(i, "badconvert", how, a, raised)
+        self.ctx.cov("badconvert", how, raised, self.depth)
 
     def op_convert(self, i, op):
         a = self.EU[op["a"] % len(self.EU)]
@@ -452,6 +498,11 @@ class Runner:
                 obj = self.objs.get(name, (None,))[0] or qr.Hamiltonian(dim=3)
                 E = numpy.array([[0.0, 0.0, 0.0], [0.0, e, e / 40.0], [0.0, e / 40.0, 1.2 * e]])
                 obj.data = from_internal(u, E)
+                store = E
+            elif name == "ham_rwa":
+                E = numpy.array([[0.0, 0.0, 0.0], [0.0, e, e / 50.0], [0.0, e / 50.0, 1.1 * e]])
+                obj = qr.Hamiltonian(data=from_internal(u, E))
+                obj.set_rwa([0, 1])
                 store = E
             elif name == "faxis":
                 obj = qr.FrequencyAxis(v, 5, v / 10.0)
@@ -529,6 +580,14 @@ class Runner:
             elif name in ("ham_new", "ham_assign"):
                 got = numpy.array(obj.data)
                 exp = from_internal(u, e)
+            elif name == "ham_rwa":
+                sk = numpy.array([0.0, (e[1, 1] + e[2, 2]) / 2.0, (e[1, 1] + e[2, 2]) / 2.0])
+                if u == "nm":
+                    got = numpy.array(obj.get_RWA_skeleton())
+                    exp = from_internal(u, sk)
+                else:
+                    got = numpy.concatenate([numpy.array(obj.get_RWA_skeleton()), numpy.array(obj.get_RWA_data()).ravel()])
+                    exp = numpy.concatenate([from_internal(u, sk), (from_internal(u, e) - numpy.diag(from_internal(u, sk))).ravel()])
             elif name == "faxis":
                 if u == "nm":
                     got = numpy.array([obj.start])
